@@ -351,23 +351,47 @@ Fixpoint kwalk (fuel links : nat) (f : fs) (follow_last : bool) (cur : path) (wo
       end
   end.
 
-Definition KFUEL : nat := 4000.
-Definition kstat (f : fs) (p : path) : kres := kwalk KFUEL MAXSYMLINKS f true [] p.
-Definition klstat (f : fs) (p : path) : kres := kwalk KFUEL MAXSYMLINKS f false [] p.
+(* fuel that the walk cannot exhaust: every link expansion adds at most (length target + 1) segments
+   and at most MAXSYMLINKS expansions happen *)
+Definition max_target (f : fs) : nat :=
+  fold_right (fun e m => match snd e with NLink t => Nat.max (S (length t)) m | _ => m end) 1%nat f.
+Definition kfuel (f : fs) (p : path) : nat := S (length p + 41 * max_target f).
+Definition kstat (f : fs) (p : path) : kres := kwalk (kfuel f p) MAXSYMLINKS f true [] p.
+Definition klstat (f : fs) (p : path) : kres := kwalk (kfuel f p) MAXSYMLINKS f false [] p.
 
 (* ---- os.path.realpath(strict=False): posixpath._joinrealpath as a work list ---- *)
 Inductive item := Seg (s : seg) | EndLink (p : path).
 
 Inductive rp_result :=
 | RP_ok (p : path)
+| RP_partial (s : str)    (* _joinrealpath gave up at a symlink loop: resolved part + rest, unresolved *)
 | RP_loop                 (* symlink loop: Path.resolve() raises RuntimeError (Python < 3.13) *)
-| RP_nul                  (* ValueError: embedded null byte, from os.lstat *)
+| RP_nul                  (* ValueError: embedded null byte, from os.lstat / os.stat *)
 | RP_fuel.
 
 Fixpoint path_mem (p : path) (l : list path) : bool :=
   match l with [] => false | q :: r => path_eqb p q || path_mem p r end.
 Fixpoint path_remove (p : path) (l : list path) : list path :=
   match l with [] => [] | q :: r => if path_eqb p q then r else q :: path_remove p r end.
+
+(* posixpath.join(a, b) *)
+Definition py_join (a b : str) : str :=
+  if is_abs b then b
+  else match rev a with
+       | [] => b
+       | c :: _ => if c =? SLASH then a ++ b else a ++ SLASH :: b
+       end.
+
+(* "return join(newpath, rest), False" propagated through every pending level:
+   each level appends its own unconsumed rest (the Seg items up to the next EndLink) *)
+Fixpoint abandon_at (acc : str) (level : list seg) (work : list item) : str :=
+  match work with
+  | [] => py_join acc (join_with SLASH (rev level))
+  | Seg s :: w => abandon_at acc (s :: level) w
+  | EndLink _ :: w => abandon_at (py_join acc (join_with SLASH (rev level))) [] w
+  end.
+
+Definition path_str (p : path) : str := SLASH :: join_with SLASH p.
 
 (* cur = the `path` accumulated so far; inprog = links whose target is being resolved
    (seen[newpath] is None); a link met again while in progress is a loop. *)
@@ -386,7 +410,7 @@ Fixpoint joinreal (fuel : nat) (f : fs) (inprog : list path) (cur : path) (work 
             match child f cur s with
             | Some (NLink t) =>
                 let np := cur ++ [s] in
-                if path_mem np inprog then RP_loop
+                if path_mem np inprog then RP_partial (abandon_at (path_str np) [] w)
                 else joinreal k f (np :: inprog) (if is_abs t then [] else cur)
                        (map Seg (split_on SLASH t) ++ EndLink np :: w)
             | _ => joinreal k f inprog (cur ++ [s]) w
@@ -394,17 +418,14 @@ Fixpoint joinreal (fuel : nat) (f : fs) (inprog : list path) (cur : path) (work 
       end
   end.
 
-Definition RFUEL : nat := 20000.
-
-(* Path.resolve() of the absolute path whose segments are p *)
-Definition resolve (f : fs) (p : path) : rp_result := joinreal RFUEL f [] [] (map Seg p).
+(* fuel for realpath (nested link expansions are not bounded by MAXSYMLINKS there); running out is
+   the explicit result RP_fuel, which the harness reports as a disagreement, never a served file *)
+Definition rfuel (f : fs) (p : path) : nat := 8 * (S (length p) + length f + 4 * max_target f).
 
 (* ---- pathlib / os.path string functions ---- *)
 (* PurePosixPath(s): (is_absolute, parts below the anchor); ".." is kept *)
 Definition parse_posix (s : str) : bool * path :=
   (is_abs s, filter (fun x => negb (is_empty x) && negb (is_dot x)) (split_on SLASH s)).
-
-Definition path_str (p : path) : str := SLASH :: join_with SLASH p.
 
 (* posixpath.normpath *)
 Fixpoint norm_comps (abs : bool) (comps acc : list seg) : list seg :=
@@ -435,6 +456,22 @@ Definition py_normpath (s : str) : str :=
       let comps := norm_comps (negb (Nat.eqb i 0)) (split_on SLASH s) [] in
       let r := repeat SLASH i ++ join_with SLASH comps in
       match r with [] => [46] | _ => r end
+  end.
+
+(* Path.resolve() (strict=False, Python 3.12) of the absolute path whose segments are p:
+   realpath; abspath (normpath) of what it returned; then `p.stat()` only to turn ELOOP into
+   RuntimeError.  When realpath gave up at a loop, the rest of the path is NOT resolved. *)
+Definition resolve (f : fs) (p : path) : rp_result :=
+  match joinreal (rfuel f p) f [] [] (map Seg p) with
+  | RP_partial s =>
+      let q := snd (parse_posix (py_normpath s)) in
+      if existsb (memN 0) q then RP_nul
+      else match kstat f q with
+           | KELOOP => RP_loop
+           | KFuel => RP_fuel
+           | _ => RP_ok q
+           end
+  | r => r
   end.
 
 (* str.replace(old, new) for a non-empty old *)
@@ -528,9 +565,15 @@ Definition handle (f : fs) (root : path) (follow show_index : bool) (accept : st
     | inl RP_loop => S404                          (* RuntimeError, CIRCULAR_SYMLINK_ERROR *)
     | inl RP_nul => S404                           (* ValueError *)
     | inl RP_fuel => SFuel
+    | inl (RP_partial _) => S500                   (* resolve never returns this constructor *)
     | inl (RP_ok p) =>
         match kstat f p with
-        | KOk _ NDir => if show_index then SListing p (children f p) else S403
+        | KOk q NDir =>
+            if show_index then
+              (* _directory_as_html: dir_path.relative_to(self._directory) raises ValueError (-> 500)
+                 for a directory reached through a link that leaves the root (follow mode only) *)
+              if path_prefix root p then SListing p (children f q) else S500
+            else S403
         | KFuel => SFuel
         | _ => file_lookup f p accept
         end
